@@ -104,7 +104,7 @@ Record INV (s : node) : Prop := mkINV {
   i_hist_known : forall e, In e (sm_hist s) -> known s e;
   i_snap_known : forall e, In e (d_snapc s) -> known s e;
   (* everything this replica handed to its state machine is the committed entry of its index, a command *)
-  i_applied_sound : forall e, In e (applied_tr (n_tr s)) -> e = clog (e_idx e) /\ is_normal e = true
+  i_applied_sound : forall e, In e (applied_tr (n_tr s)) -> e = clog (e_idx e) /\ is_normal e = true /\ 0 < e_idx e
 }.
 
 Lemma known_mono s s' e :
@@ -192,7 +192,7 @@ Proof.
       destruct (i_snap_known0 e He) as [A|B]; [left; apply in_or_app; left; exact A | right; exact B].
     + intros e He. rewrite applied_tr_app in He. cbn in He. rewrite app_nil_r in He.
       apply in_app_or in He. destruct He as [He|He]; [apply i_applied_sound0, He|].
-      destruct (Hsd e He) as (A & B & _). split; assumption.
+      destruct (Hsd e He) as (A & B & C). split; [exact A|]. split; [exact B | lia].
   - (* OMarkApplied *)
     destruct V as [Vc Vs].
     destruct (index <=? v_applied s) eqn:Eg; [split; [constructor; assumption | exact L]|].
